@@ -86,8 +86,8 @@ def rule_identity(ctx: Ctx, repo: Repo) -> None:
     seen_pkg: List[V] = []
 
     def spy(call, fname, fval, args, kwargs, st, _s=seen_pkg):
-        if (fname or "") == "get_absolute_module_from_package_for_import" and args:
-            _s.append(st.freeze(args[0]))
+        if (fname or "") == "get_absolute_module_from_package_for_import" and (args or "current_package" in kwargs):
+            _s.append(st.freeze(args[0] if args else kwargs["current_package"]))
         return None
 
     probe = R("ImportFrom", module=K("shapes"), relative=K(1), names=K((alias_node("Circle"),)))
